@@ -975,7 +975,7 @@ fn parse_case<TF, TE>(
         return None;
     }
     let rt_kind = va[0].as_atom()?.to_string();
-    if !["gen", "slot", "setup"].contains(&rt_kind.as_str()) {
+    if !["gen", "slot", "setup", "initrt"].contains(&rt_kind.as_str()) {
         return None;
     }
     let entry = entry(&va[1])?;
@@ -1194,6 +1194,11 @@ where
             let slot = AmbientSlot::new();
             slot.init(Runtime::build(e, f, ctxt, clock, ConstRng))?;
             observe(slot.get(), rest, None)
+        }
+        // `Setup::init_runtime()`: the builder's components as a standalone generic runtime
+        "initrt" => {
+            let rt = emit::setup().emit_to(e).emit_when(f).with_ctxt(ctxt).with_clock(clock).with_rng(ConstRng).init_runtime();
+            observe(&rt, rest, None)
         }
         "setup" => {
             let slot = AmbientSlot::new();
@@ -1910,7 +1915,7 @@ fn g_via_when_evt(r: &mut Rng, depth: usize) -> (Sexp, Sexp, Sexp, u64) {
 
 /// `first` = the lowest entry-point class drawn (12 = only the level-macro call sites).
 fn g_via_when_evt_from(r: &mut Rng, depth: usize, first: u64) -> (Sexp, Sexp, Sexp, u64) {
-    let rt_kind = *r.pick(&["gen", "gen", "gen", "slot", "setup"]);
+    let rt_kind = *r.pick(&["gen", "gen", "gen", "slot", "setup", "gen", "slot", "setup", "initrt"]);
     let mut tpl = pk(r, TPLS).to_string();
     let mut prefix = Vec::new();
     let mut mdl = pk(r, MDLS).to_string();
